@@ -44,7 +44,7 @@ fn main() {
     // crates the driver found the macro under test to reject: left out of the table
     let exclude: Vec<String> = get("--exclude", "").split(',').filter(|x| !x.is_empty()).map(|x| x.to_string()).collect();
     let mut qdevs: Vec<IfaceSpec> = Vec::new();
-    for q in [1usize, 2, 3, 4, 10] {
+    for q in [1usize, 2, 3, 4, 5, 8, 10, 16] {
         qdevs.push(genr::qdev(q));
     }
     // one crate per fixed interface family, so that a macro that rejects one does not take
